@@ -8,25 +8,36 @@ record("BaseJobSet", abstract=True)
 record("JobSet", bases=["BaseJobSet"], fields={"handle": "TaskHandle", "name": "Str", "count": "Opt[Int]", "done": "Int", "job_name": "Opt[Str]"})
 record("NullJobSet", bases=["BaseJobSet"])
 
-contract("Observer.__call__", abstract=True, params={"self": "Observer"}, modifies=["TaskHandle.stopped[*]"],
+ghost("notified", "Int")     # how many observer notifications have been delivered
+contract("Observer.__call__", abstract=True, params={"self": "Observer"}, modifies=["TaskHandle.stopped[*]", "notified"],
+         ensures=["notified == old(notified) + 1",
+                  # an observer may stop tasks (TaskHandle.stop) but nothing un-stops one
+                  "forall(lambda h: implies(old(h.stopped), h.stopped), 'TaskHandle')"],
          note="an observer may stop the task (TaskHandle.stop) but is assumed not to raise and not to touch job sets")
 contract("TaskHandle.is_stopped", source=M + "TaskHandle.is_stopped", inline=True, params={"self": "TaskHandle"}, returns="Bool",
          ensures=["result == self.stopped"])
 contract("TaskHandle._inform_observers", source=M + "TaskHandle._inform_observers", params={"self": "TaskHandle"},
-         modifies=["TaskHandle.stopped[*]"], loops={1: {"index": "k", "inv": ["True"]}})
-contract("TaskHandle.stop", source=M + "TaskHandle.stop", params={"self": "TaskHandle"}, modifies=["TaskHandle.stopped[*]"],
-         ensures=["implies(self.interrupts, True)"])
+         modifies=["TaskHandle.stopped[*]", "notified"],
+         ensures=["notified == old(notified) + len(self.observers)", "forall(lambda h: implies(old(h.stopped), h.stopped), 'TaskHandle')"],
+         loops={1: {"index": "k", "inv": ["notified == old(notified) + k", "forall(lambda h: implies(old(h.stopped), h.stopped), 'TaskHandle')"]}},
+         note="every registered observer is called exactly once")
+contract("TaskHandle.stop", source=M + "TaskHandle.stop", params={"self": "TaskHandle"}, modifies=["TaskHandle.stopped[*]", "notified"],
+         ensures=["implies(self.interrupts, self.stopped and notified == old(notified) + len(self.observers))",
+                  "implies(not self.interrupts, self.stopped == old(self.stopped) and notified == old(notified))",
+                  "forall(lambda h: implies(old(h.stopped), h.stopped), 'TaskHandle')"],
+         note="stop() marks an interruptible task stopped and tells the observers; a non-interruptible task ignores it")
 contract("JobSet.check_status", source=M + "JobSet.check_status", params={"self": "JobSet"}, modifies=[],
          ensures=["not self.handle.stopped"],
          raises={"InterruptedTaskError": {"when": "self.handle.stopped", "ensures": []}})
 contract("JobSet.started_job", source=M + "JobSet.started_job", params={"self": "JobSet", "name": "Str"},
-         modifies=["self.job_name", "TaskHandle.stopped[*]"],
-         ensures=["self.job_name == Some(name)", "self.done == old(self.done)", "not old(self.handle.stopped)"],
+         modifies=["self.job_name", "TaskHandle.stopped[*]", "notified"],
+         ensures=["self.job_name == Some(name)", "self.done == old(self.done)", "not old(self.handle.stopped)",
+                  "notified == old(notified) + len(self.handle.observers)"],
          raises={"InterruptedTaskError": {"when": "self.handle.stopped",
-                                          "ensures": ["self.job_name == old(self.job_name)", "self.done == old(self.done)"]}})
+                                          "ensures": ["self.job_name == old(self.job_name)", "self.done == old(self.done)", "notified == old(notified)"]}})
 contract("JobSet.finished_job", source=M + "JobSet.finished_job", params={"self": "JobSet"},
-         modifies=["self.job_name", "self.done", "TaskHandle.stopped[*]"],
-         ensures=["self.done == old(self.done) + 1", "is_none(self.job_name)"],
+         modifies=["self.job_name", "self.done", "TaskHandle.stopped[*]", "notified"],
+         ensures=["self.done == old(self.done) + 1", "is_none(self.job_name)", "notified == old(notified) + len(self.handle.observers)"],
          note="no `raises`: an interruption requested while the job ran must not surface after the job's effect")
 contract("NullJobSet.started_job", source=M + "NullJobSet.started_job", params={"self": "NullJobSet", "name": "Str"}, modifies=[])
 contract("NullJobSet.finished_job", source=M + "NullJobSet.finished_job", params={"self": "NullJobSet"}, modifies=[])
